@@ -230,21 +230,35 @@ def _clip_kind(repo, table):
 
 
 def _matrix_kind(repo, table):
+    """The transform handler interpreted on formal affine maps: the child ends up with its own transform applied first, then the
+    parent's; a lone transform is kept as it is; nothing is left when the product is the identity."""
     h = table.get("transform")
     if h is None:
         return None
-    svg = repo["svg"]
-    fn = svg.func(h.name)
-    from sa.rules.common import calls_named, compose_operands, rtext
-    import re
-    cs = [c for c in calls_named(fn, "compose_ltr", nested=False) if compose_operands(c)]
-    if len(cs) == 1:
-        ops = [rtext(fn, o) for o in compose_operands(cs[0])]
-        if re.search(r"fromstring\(p1\.attrib\[p2\]\)", ops[0]) and re.search(r"fromstring\(p0\[p2\]\)|identity\(\)", ops[1]):
-            t = unparse(fn)
-            if "child.attrib[attr_name] = transform.tostring()" in t and "del child.attrib[attr_name]" in t:
-                return "matrix"
-    return "other:matrix-handler"
+    from sa.dom import AffTok, install_affine
+    fn = closure_of(repo, "svg", h.name)
+    n = "transform"
+    got = []
+    for pa, ca in (({n: "tP"}, {n: "tC"}), ({n: "tP"}, {}), ({}, {n: "tC"}), ({n: "tP"}, {n: "tC", "fill": "red"})):
+        holder = {}
+
+        def fresh(pa=pa, ca=ca):
+            ch = _child(ca)
+            holder["c"] = ch
+            return ([dict(pa), ch, n], {})
+
+        outs = explore(repo, fn, [], fresh_args=fresh, setup=install_affine)
+        for o in outs:
+            if o.undecided:
+                raise AnalysisError(f"svg.{h.name}: evaluator undecided: {o.undecided}")
+        if len(outs) != 1 or outs[0].raised:
+            got.append(f"{len(outs)} outcomes" if len(outs) != 1 else f"raises {outs[0].raised}")
+            continue
+        v = holder["c"].f["attrib"].get(n, "<absent>")
+        tok = AffTok.registry.get(v) if isinstance(v, str) else (v if isinstance(v, AffTok) else None)
+        got.append("*".join(tok.app) if tok is not None else str(v))
+    want = ["parse(tC)*parse(tP)", "parse(tP)", "parse(tC)", "parse(tC)*parse(tP)"]
+    return "matrix" if got == want else "other:" + "|".join(got)
 
 
 def _owner(node):
@@ -289,6 +303,12 @@ def _check_normalize(repo, rep):
 
 _S = "svg"
 VARIANTS = [
+    Variant("group transform applied before the child's own", [Edit(_S, "_inherit_matrix_multiply", "(Affine2D.fromstring(child.attrib[attr_name]), transform)", "(transform, Affine2D.fromstring(child.attrib[attr_name]))")],
+            [("R-TABLE.inheritance", "_INHERIT_ATTRIB_HANDLERS")]),
+    Variant("child transform replaces the group's", [Edit(_S, "_inherit_matrix_multiply", "(Affine2D.fromstring(child.attrib[attr_name]), transform)", "(Affine2D.fromstring(child.attrib[attr_name]),)")],
+            [("R-TABLE.inheritance", "_INHERIT_ATTRIB_HANDLERS")]),
+    Variant("silent: transform handler rewritten with get / early return", [Edit(_S, "_inherit_matrix_multiply", "    if transform != Affine2D.identity():\n        child.attrib[attr_name] = transform.tostring()\n    else:\n        del child.attrib[attr_name]",
+                                                                              "    if transform == Affine2D.identity():\n        del child.attrib[attr_name]\n        return\n    child.attrib[attr_name] = transform.tostring()")], silent=True),
     Variant("opacity copied instead of multiplied", [Edit(_S, None, '    "opacity": _inherit_multiply,', '    "opacity": _inherit_copy,')], [("R-TABLE.inheritance", "_INHERIT_ATTRIB_HANDLERS")]),
     Variant("fill-opacity multiplied", [Edit(_S, None, '    "fill-opacity": _inherit_copy,', '    "fill-opacity": _inherit_multiply,')], [("R-TABLE.inheritance", "_INHERIT_ATTRIB_HANDLERS")]),
     Variant("<= 1 becomes < 1", [Edit(_S, "_is_removable_group", "num_children <= 1", "num_children < 1")], [("R-CASE.group-retention", "_is_removable_group")]),
